@@ -18,19 +18,23 @@ vars == <<tid, l, patches, handled, verdict>>
 T == Traces[tid].events
 E == T[l]
 Tmo == Traces[tid].timeout
-Init == tid \in 1..Len(Traces) /\ l = 1 /\ patches = {} /\ handled = FALSE /\ verdict = "ok"
+Init == tid \in 1..Len(Traces) /\ l = 1 /\ patches = {} /\ handled = 0 /\ verdict = "ok"
 Bad(v) == verdict' = IF verdict = "ok" THEN v ELSE verdict
 Alone(i) == \A j \in DOMAIN T : (j # i /\ T[j].ev = "line") => T[j].t # T[i].t
 SeenAt(i) == \E j \in DOMAIN T : T[j].ev = "winv" /\ T[j].rv = T[i].rv /\ T[j].t = T[i].t
 Step ==
   /\ l <= Len(T) /\ l' = l + 1 /\ UNCHANGED tid
   /\ CASE E.ev = "patch" -> patches' = patches \cup {<<E.t, E.rv>>} /\ UNCHANGED verdict
-                             /\ handled' = (handled \/ ("lh" \in DOMAIN E /\ E.lh))      \* the last-handled state is on the object from now on
+                             \* the last-handled state is on the object from this version on (0: not yet)
+                             /\ handled' = (IF handled = 0 /\ "lh" \in DOMAIN E /\ E.lh THEN E.rv ELSE handled)
        [] E.ev = "inv" -> /\ UNCHANGED <<patches, handled>>
                           /\ IF \E p \in patches : p[2] > E.rv /\ E.t < p[1] + Tmo
                              THEN Bad("change_handler_on_a_view_older_than_the_own_patch")
-                             \* (C05) creation is for objects that were never handled before
-                             ELSE IF handled /\ "reason" \in DOMAIN E /\ E.reason = "create" THEN Bad("creation_handler_on_an_object_that_was_handled_before")
+                             \* (C05) creation is for objects that were never handled before: no creation handler on a view that
+                             \* carries the stored last-handled state.  (A view older than the patch that stored it does not carry it;
+                             \* once the consistency timeout has elapsed such a view is processed for what it shows.)
+                             ELSE IF handled # 0 /\ E.rv >= handled /\ "reason" \in DOMAIN E /\ E.reason = "create"
+                                  THEN Bad("creation_handler_on_an_object_that_was_handled_before")
                              ELSE UNCHANGED verdict
        [] E.ev = "line" -> /\ UNCHANGED <<patches, handled>>
                            /\ IF E.idle /\ Alone(l) /\ ~SeenAt(l) THEN Bad("raw_event_handler_was_delayed") ELSE UNCHANGED verdict
